@@ -112,6 +112,7 @@ func (k *Known) match(prop, rule, construct string) *knownEntry {
 }
 
 type Report struct {
+	remap      func(o *Obligation) (string, bool)
 	Prop       string
 	Tier       string
 	P          *Prog
@@ -138,6 +139,9 @@ func NewReport(prop, tier string, p *Prog, k *Known) *Report {
 // Rule declares a rule: its id, what it decides, and the minimum number of instances confirmed by
 // hand on the pinned tree (fewer = the rule went vacuous = failure).
 func (r *Report) Rule(id, doc string, min int) {
+	if r.remap != nil && !strings.HasPrefix(id, r.Prop+".") {
+		return // a borrowed rule family: only the renamed obligations are this property's
+	}
 	if _, ok := r.rulesDoc[id]; !ok {
 		r.ruleOrder = append(r.ruleOrder, id)
 	}
@@ -146,6 +150,14 @@ func (r *Report) Rule(id, doc string, min int) {
 }
 
 func (r *Report) add(o *Obligation) {
+	// a rule family run on behalf of another property: obligations are renamed, or dropped when outside its scope
+	if r.remap != nil {
+		rule, keep := r.remap(o)
+		if !keep {
+			return
+		}
+		o.Rule = rule
+	}
 	key := o.Rule + "|" + o.Construct
 	if r.seen[key] {
 		// same construct reported twice (e.g. through two scopes): keep the worst verdict
